@@ -545,15 +545,17 @@ class TBRMatchedMarkets:
     # The default ranges are kept local: the parameters object belongs to the
     # caller and must not be modified by the search.
     treatment_geos_range = self.parameters.treatment_geos_range
+    n_treatment = len(self.geo_assignments.t)
+    max_treatment_size = n_treatment
+    n_remaining = len(self.geo_assignments.all) - n_treatment
+    if n_remaining == 0:
+      max_treatment_size = n_treatment - 1
     if treatment_geos_range is None:
-      n_treatment = len(self.geo_assignments.t)
-      max_treatment_size = n_treatment
-      n_remaining = len(self.geo_assignments.all) - n_treatment
-      if n_remaining == 0:
-        max_treatment_size = n_treatment - 1
       treatment_geos_range = (1, max_treatment_size)
     else:
-      max_treatment_size = treatment_geos_range[1]
+      # A treatment group cannot be larger than the number of available geos,
+      # so there is no point in iterating up to a larger upper bound.
+      max_treatment_size = min(treatment_geos_range[1], max_treatment_size)
 
     control_geos_range = self.parameters.control_geos_range
     if control_geos_range is None:
